@@ -1463,6 +1463,13 @@ def search(ck, budget):
                     continue
                 if lost_labels(rd0, rd1):
                     continue
+                if re.search(r'=(\d|%\d\d)', sp) and n_st > 1:
+                    # known finding closure-double-bond-marks: a labelled double bond written AS the ring-closure bond next to another
+                    # labelled double bond gets wrong direction marks
+                    ck.counterexample('closure-double-bond-marks', 'a labelled double bond written as the ring-closure bond (C=1 ... C=1) of a conjugated system gets '
+                                      'wrong direction marks', {'smiles': smi, 'respelled': sp}, c1, can_rd, 'RDKit canonical isomeric SMILES',
+                                      replay_py=f"from chython import smiles; print(smiles('C/C1=C/C=C/CCCCCCC1') == smiles('C/C1=C\\C=C\\CCCCCCC1'))")
+                    break
                 ck.counterexample(f'rdkit-respell:{smi}', 'random-order SMILES of a stereo molecule denotes another stereoisomer for RDKit',
                                   {'smiles': smi, 'respelled': sp}, c1, can_rd, 'RDKit canonical isomeric SMILES',
                                   replay_py=f"from chython import smiles; m=smiles({smi!r}); print(str(m))")
@@ -1492,6 +1499,7 @@ def search(ck, budget):
     search_stereogenic(ck, pool)
     search_allenes(ck)
     search_printable(ck)
+    search_closure_double_bond(ck)
     search_wedge(ck)
     search_api_cache(ck)
     search_closure_marks(ck)
@@ -1575,6 +1583,23 @@ def search_stereogenic(ck, pool):
             ck.counterexample(f'label-dropped:{smi}', 'the label of a stereogenic centre (kept by RDKit) is dropped on reading',
                               {'smiles': smi, 'family': family}, str(m), f'{kept_rd} label(s): {Chem.MolToSmiles(rd)}', 'RDKit',
                               replay_py=f"from chython import smiles; print(smiles({smi!r}))")
+
+
+def search_closure_double_bond(ck):
+    """E/Z isomers of a macrocyclic diene whose canonical string writes one labelled double bond as the ring-closure bond: they must
+    not compare equal (known finding closure-double-bond-marks)"""
+    from chython import smiles
+    from rdkit import Chem
+    for a, c in (('C/C1=C/C=C/CCCCCCC1', 'C/C1=C\\C=C\\CCCCCCC1'), ('C/C1=C/CCCCCCCC1', 'C/C1=C\\CCCCCCCC1'), ('C/C1=C/C=C/CCCCC(=O)N1', 'C/C1=C\\C=C\\CCCCC(=O)N1')):
+        ma, mc = smiles(a), smiles(c)
+        ck.case(('closure-diene', a))
+        ck.count('closure double bond: isomer pairs')
+        differ_rd = Chem.MolToSmiles(Chem.MolFromSmiles(a)) != Chem.MolToSmiles(Chem.MolFromSmiles(c))
+        if differ_rd and ma == mc:
+            ck.counterexample('closure-double-bond-marks', 'two E/Z isomers compare equal: the labelled double bond written as the ring-closure bond (C=1 ... C=1) next to '
+                              'another labelled double bond gets wrong direction marks in the canonical SMILES', {'a': a, 'b': c}, f'equal: {ma}', 'different molecules',
+                              'RDKit canonical isomeric SMILES of the two inputs differ',
+                              replay_py=f"from chython import smiles; print(smiles({a!r}) == smiles({c!r}))")
 
 
 def search_printable(ck):
@@ -1721,6 +1746,7 @@ def run(ck):
                         'states of 27 templates. non-trivial = the implementation returned a sign / the molecule has a registry entry / a label is dropped or '
                         'several labels interact. search: corpus stereo molecules respelled by chython and re-read by RDKit; non-trivial = has at least one '
                         'stereo element')
+    random.seed(f'{ck.seed}:global')     # format(mol, 'r') draws from the global generator: fixed per VERIF_SEED
     proved = common.standard_proof_steps(ck, translators=['stereo', 'elements'], extra_targets=['model/StereoRegistry.vo', 'model/StereoSmiles.vo', 'model/StereoFix.vo', 'model/StereoWedge.vo', 'model/StereoParse.vo', 'model/StereoChiral.vo'])
     tied = corr_translate(ck)
     tied = corr_registries(ck) and tied
